@@ -69,6 +69,7 @@ class World:
             e = r["ent"]
             if e["kind"] == "wrapper" and e["recv"]["t"]["k"] == "named" and e["recv"]["t"]["scope"]:
                 self.emb[tuple(e["recv"]["t"]["scope"])] = r["reach"]["recv"]["t"]["name"]
+        self.cexport = {(r["ent"]["pkg"], r["ent"]["name"]) for r in refs if r.get("export")}
         self._layout()
         self._tokens()
 
@@ -153,6 +154,12 @@ class World:
             return "@%s.go#%d" % (c["pkg"], c["site"])
         raise ValueError(k)
 
+    def fname(self, e):
+        """Go identifier of a function entity: a function exported to C gets a symbol that is unique in the program"""
+        if (e["pkg"], e["name"]) in self.cexport:
+            return "%s_%s" % (e["name"], self.gid)
+        return e["name"]
+
     # ------------------------------------------------------------------ Go syntax of a type term as written in `frm`
     def q(self, pkg, frm):
         return "" if pkg == frm else pkg + "."
@@ -234,7 +241,7 @@ class World:
         """statements that call through a reference to entity e written in package frm and return what was reached"""
         k = e["kind"]
         if k == "func":
-            return ["return %s%s(%d)" % (self.q(e["pkg"], frm), e["name"], sel)]
+            return ["return %s%s(%d)" % (self.q(e["pkg"], frm), self.fname(e), sel)]
         if k == "method":
             t = e["recv"]["t"]
             if e["recv"]["ptr"]:
@@ -250,6 +257,15 @@ class World:
             return ['return "desc:" + reg.Who(%s, (*%s)(nil))' % (json.dumps(self.gid), self.ty(e["t"], frm))]
         if k == "gothunk":
             return ["return Go%d()" % e["site"]]
+        if k == "linked":
+            t = e["target"]
+            if t["kind"] == "func":
+                return ["return %s(%d)" % (e["name"], sel)]
+            if t["kind"] == "global":
+                return ["return %s" % e["name"]]
+            if t["kind"] == "method":
+                rt = t["recv"]["t"]
+                return ["return %s(%s%s{}, %d)" % (e["name"], "&" if t["recv"]["ptr"] else "", self.ty(rt, frm), sel)]
         if k == "wrapper":
             t = e["recv"]["t"]
             v = self.value(t, frm)
@@ -336,6 +352,23 @@ class World:
                  "func N(sel int) string { return %s }" % lit("@%s.N" % p), ""]
             c += self.fn_with_tree("func Cf(sel int) string", lambda sfx: lit("@%s.Cf%s" % (p, sfx))) + [""]
             chunks.append(("funcs", c))
+            hidden = [r["ent"] for r in self.refs if r["from"] == p and r["ent"]["kind"] in ("func", "global", "method")
+                      and self._unexported(r["ent"]) and self._home(r["ent"]) == p]
+            exported = [r["ent"] for r in self.refs if r["from"] == p and r.get("export") and r["ent"]["pkg"] == p]
+            c = []
+            for e in hidden:
+                if e["kind"] == "func":
+                    c += ["func %s(sel int) string { return %s }" % (e["name"], lit(self.ident(e))), ""]
+                elif e["kind"] == "global":
+                    c += ["var %s = %s" % (e["name"], lit(self.ident(e))), ""]
+                else:
+                    tn = e["recv"]["t"]["name"]
+                    c += ["type %s struct{}" % tn, "",
+                          "func (%s%s) %s(sel int) string { return %s }" % ("*" if e["recv"]["ptr"] else "", tn, e["name"], lit(self.ident(e))), ""]
+            for e in exported:
+                c += ["//export %s" % self.fname(e), "func %s(sel int) string { return %s }" % (self.fname(e), lit(self.ident(e))), ""]
+            if c:
+                chunks.append(("hidden", c))
             who = lambda v: "reg.Who(%s, (*%s)(nil))" % (lit(self.gid), v)
             c = self.fn_with_tree("func F[X any](sel int) string",
                                   lambda sfx: "%s + %s + %s" % (lit("@%s.F[" % p), who("X"), lit("]" + sfx))) + [""]
@@ -348,6 +381,22 @@ class World:
             c += self.fn_with_tree("func (g *G[X]) N(sel int) string",
                                    lambda sfx: "%s + %s + %s" % (lit("@%s.(*G[" % p), who("X"), lit("]).N" + sfx))) + [""]
             chunks.append(("gentype", c))
+        linked = [r["ent"] for r in self.refs if r["from"] == p and r["ent"]["kind"] == "linked"]
+        self.has_linked = getattr(self, "has_linked", {})
+        self.has_linked[p] = bool(linked)
+        if linked:
+            c = []
+            for e in linked:
+                t = e["target"]
+                c.append("//go:linkname %s %s" % (e["name"], self.linksym(t)))
+                if t["kind"] == "func":
+                    c += ["func %s(sel int) string" % e["name"], ""]
+                elif t["kind"] == "global":
+                    c += ["var %s string" % e["name"], ""]
+                else:
+                    rt = t["recv"]["t"]
+                    c += ["func %s(r %s%s, sel int) string" % (e["name"], "*" if t["recv"]["ptr"] else "", self.ty(rt, p)), ""]
+            chunks.append(("linked", c))
         # go statements
         c = ["func gof1(ch chan string, a int) { ch <- %s }" % lit("@%s.go#1" % p), "",
              "func gof2(ch chan string, s string, b int) { ch <- %s }" % lit("@%s.go#2" % p), "",
@@ -428,16 +477,40 @@ class World:
             need = {q for q in used if (q + ".") in text}
             src = ["package %s" % self.pkgname[p], ""]
             imps = self._imports(p, need)
+            if "//go:linkname " in text:
+                imps.insert(1, '\t_ "unsafe"')
             if "reg." not in text:
                 imps = [l for l in imps if "vmod/reg" not in l]
             if len(imps) > 2:
                 src += imps + [""]
             src += body
             files["%s/f%d.go" % (self.dir_of(p), fi)] = "\n".join(src) + "\n"
+        if linked:
+            files["%s/empty.s" % self.dir_of(p)] = ""      # the reference toolchain accepts body-less functions only then
         return files
+
+    @staticmethod
+    def _unexported(e):
+        n = e["recv"]["t"]["name"] if e["kind"] == "method" and e["name"][0].isupper() else e["name"]
+        return not n[0].isupper()
+
+    @staticmethod
+    def _home(e):
+        return e["recv"]["t"]["pkg"] if e["kind"] == "method" else e["pkg"]
+
+    def linksym(self, t):
+        """the symbol a //go:linkname directive names for entity t: Go's convention importpath.name / importpath.T.m"""
+        if t["kind"] in ("func", "global"):
+            return "%s.%s" % (self.path[t["pkg"]], t["name"])
+        rt = t["recv"]["t"]
+        tn = "(*%s)" % rt["name"] if t["recv"]["ptr"] else rt["name"]
+        return "%s.%s.%s" % (self.path[rt["pkg"]], tn, t["name"])
 
     def _used(self, e, used):
         k = e["kind"]
+        if k == "linked":
+            self._used(e["target"], used)
+            return
         if k in ("func", "inst", "global"):
             used.add(e["pkg"])
         if k == "inst":
